@@ -56,7 +56,7 @@ func numVar(name string, f float64) VarSpec {
 	}
 	return VarSpec{Local: name, Type: "number", Num: s}
 }
-func strVar(name, s string) VarSpec   { return VarSpec{Local: name, Type: "string", Str: s} }
+func strVar(name, s string) VarSpec       { return VarSpec{Local: name, Type: "string", Str: s} }
 func boolVar(name string, b bool) VarSpec { return VarSpec{Local: name, Type: "boolean", Bool: b} }
 func setVar(name string, paths ...string) VarSpec {
 	return VarSpec{Local: name, Type: "node-set", Nodes: paths}
